@@ -208,6 +208,9 @@ pub fn gen(tier: &str, seed: u64, out: &mut dyn FnMut(Value)) {
             json!({"k": "load", "docs": [rule("UV", &[("$a", ".x == '{{u}}{{v}}{{t}}{{w}}'")], Some("$a"))]}),
             json!({"k": "load", "docs": [rule("A", &[("$a", ".x == 'a{{{t}}}b'"), ("$b", ".y == '{{{{t}}}}{{t}}}'")], Some("$a or $b"))]}),
             json!({"k": "compile"}),
+            // malformed as loaded unless `p` is defined at that moment; a template arriving later does not repair it
+            json!({"k": "load", "docs": [rule("P", &[("$a", "{{p}} == 'x'")], Some("$a"))]}),
+            json!({"k": "tpl", "doc": [["p", ".x"]]}),
         ];
         for n in 1..=4usize {
             let mut idx = vec![0usize; n];
